@@ -7,6 +7,7 @@ import qenv  # noqa: F401  (sets up sys.path / env)
 import torch
 from optimum.quanto.library import disable_extensions
 from optimum.quanto.tensor.qbits.packed import PackedTensor
+from total import observable, raised_event
 
 
 def flat(t):
@@ -54,10 +55,20 @@ def scenario(bits, rows, tshape, v, strided, ext_ok, ext, with_ops):
         assert not t.is_contiguous() or t.numel() <= 1 or min(t.shape) == 1
     evs = [{"act": "Start", "bits": bits, "rows": rows, "trail": trail, "v": v,
             "tshape": list(tshape), "strided": bool(strided)}]
+    used = []
+    try:
+        _scenario_steps(evs, used, t, bits, ext_ok, ext, with_ops)
+    except Exception as e:  # noqa: BLE001
+        if not observable(e):
+            raise
+        evs.append(raised_event(evs[-1]["act"] + "+1", e))
+    return evs, used
+
+
+def _scenario_steps(evs, used, t, bits, ext_ok, ext, with_ops):
     p = PackedTensor.pack(t, bits)
     evs.append({"act": "Pack", "prow": int(p._data.shape[0]), "payload": flat(p._data),
                 "pshape": list(p._data.shape), "public_shape": list(p.shape)})
-    used = []
     for name, out in routes(p._data, bits, ext_ok, ext):
         evs.append({"act": "Unpack", "route": name, "out": flat(out)})
         used.append(name)
@@ -87,7 +98,6 @@ def scenario(bits, rows, tshape, v, strided, ext_ok, ext, with_ops):
             b = fn(t)
             evs.append({"act": "Op", "kind": kind, "outcome": "value" if type(a) is torch.Tensor else type(a).__name__,
                         "on_packed": flat(a) + list(a.shape), "on_unpacked": flat(b) + list(b.shape)})
-    return evs, used
 
 
 def bytes_scenario(bits, prow, trail, payload, ext_ok, ext, layout="contiguous"):
@@ -105,8 +115,13 @@ def bytes_scenario(bits, prow, trail, payload, ext_ok, ext, layout="contiguous")
         data = tall[1:prow + 1]
     evs = [{"act": "StartBytes", "bits": bits, "prow": prow, "trail": trail, "payload": payload, "layout": layout,
             "contiguous": bool(data.is_contiguous())}]
-    for name, out in routes(data, bits, ext_ok, ext):
-        evs.append({"act": "Unpack", "route": name, "out": flat(out)})
+    try:
+        for name, out in routes(data, bits, ext_ok, ext):
+            evs.append({"act": "Unpack", "route": name, "out": flat(out)})
+    except Exception as e:  # noqa: BLE001
+        if not observable(e):
+            raise
+        evs.append(raised_event("Unpack", e))
     return evs
 
 
@@ -121,7 +136,7 @@ def main():
         for ts in tshapes.get(c["trail"], [[c["trail"]]]):
             for strided in ([False, True] if len(ts) >= 1 and c["rows"] > 1 else [False]):
                 evs, used = scenario(c["bits"], c["rows"], ts, c["v"], strided, ext_ok, ext, with_ops=(c["rows"] % 5 == 2))
-                if "payload" in c:
+                if "payload" in c and len(evs) > 1 and evs[1]["act"] == "Pack":
                     evs[1]["tlc_payload_equal"] = evs[1]["payload"] == c["payload"]
                 scen.append(evs)
                 routes_used.update(used)
